@@ -299,6 +299,10 @@ def check_all(ctx, facts):
     allowed = set()
     # the loop condition's false edge
     want_exit = {"Lt": False, "Le": False, "Gt": False, "Ge": False, "Ne": False, "IsEmpty": True}[cond["op"]]
+    # the same test written as the exit condition: `if sent_spans >= spans.len() { return Ok(()) }` at the top of a `loop`
+    inverted = (cond["op"] == "Ge" and cond_side == "a") or (cond["op"] == "Le" and cond_side == "b")
+    if inverted:
+        want_exit = True
     if cond["op"] == "IsEmpty" and cond.get("neg"):
         want_exit = not want_exit
     for a, d, _ in fn.switch_edges(header, want_exit):
@@ -318,7 +322,7 @@ def check_all(ctx, facts):
     ctx.check(not extra and bool(exits), "R4", TR, fn.span,
               "the loop ends only when sent_spans reaches spans.len() (or an I/O / encoding error is propagated)",
               "exits %s" % sorted(exits), "other exits %s" % sorted(extra), extra="exits")
-    ok_cond = (cond["op"] == "Lt" and cond_side == "a") or (cond["op"] == "Gt" and cond_side == "b") or cond["op"] == "IsEmpty"
+    ok_cond = (cond["op"] == "Lt" and cond_side == "a") or (cond["op"] == "Gt" and cond_side == "b") or cond["op"] == "IsEmpty" or inverted
     ctx.check(ok_cond, "R4", TR, fn.loc(header), "the loop continues exactly while sent_spans < spans.len()", "%s" % cond["op"],
               "condition is %s with the counter on side %s" % (cond["op"], cond_side), extra="cond")
 
